@@ -51,8 +51,7 @@ def discards(b, scope_callee=None):
         rty = t.get('rty', '')
         if not rty.startswith('std::result::Result<'):
             continue
-        if 'std::io::Error' not in rty and 'errors::Error' not in rty and 'crypto::aead::Error' not in rty:
-            continue
+        io_like = 'std::io::Error' in rty or 'errors::Error' in rty or 'crypto::aead::Error' in rty
         if t.get('mac') and any(m in LOGMAC for m in t['mac']):
             continue
         fn = t['f'].get('fn', '')
@@ -63,16 +62,20 @@ def discards(b, scope_callee=None):
             continue
         us = uses_of(b, d['l'])
         real = [u for u in us if u[0] != 'dead-copy']
-        if not real:
+        if not real and io_like:
             out.append((i, 'unused', fn))
             continue
         hit = False
+        if not io_like and not real:
+            continue   # unused non-I/O results (infallible conversions etc.) are not error discards
         for k, j, x in real:
             if k == 'call' and DISC.search(x['f'].get('fn', '')):
                 out.append((i, x['f']['fn'].split('::')[-1], fn))
                 hit = True
                 break
         if hit:
+            continue
+        if not io_like:
             continue
         # match with an Err arm that ignores the payload and continues on a non-error path
         md = match_drop(b, d['l'])
